@@ -269,6 +269,14 @@ def _alarm(signum, frame):
     raise CaseTimeout()
 
 
+class PartialResult(dict):
+    """Result of a case that did not run to its end (time limit, crash): the fields a harness reads from a complete
+    result (its class, the text it built ...) read as a placeholder instead of raising."""
+
+    def __missing__(self, key):
+        return "(case did not complete)"
+
+
 # Per-case limits are measured in CPU time of the worker (ITIMER_PROF), not wall-clock time, so that a loaded
 # machine cannot turn a slow schedule into a "Timeout" disagreement; the library is pure computation, a hang
 # is a busy loop.
@@ -307,11 +315,11 @@ def _worker_run(chunk):
         try:
             r = mod.check_case(case)
         except CaseTimeout:
-            r = {"dis": [{"clause": "Timeout", "detail": "case exceeded the per-case time limit"}],
-                 "nontrivial": True}
+            r = PartialResult({"dis": [{"clause": "Timeout", "detail": "case exceeded the per-case time limit"}],
+                               "nontrivial": True})
         except RecursionError:
-            r = {"dis": [{"clause": "HarnessRecursionError", "detail": traceback.format_exc()[-600:]}],
-                 "nontrivial": True}
+            r = PartialResult({"dis": [{"clause": "HarnessRecursionError", "detail": traceback.format_exc()[-600:]}],
+                               "nontrivial": True})
         except Exception:
             disarm()
             raise MachineryError("harness exception on case %r:\n%s" % (case, traceback.format_exc()))
@@ -375,8 +383,8 @@ def replay(modname, cases, procs=16, chunk=200):
             crashes += 1
             ex.shutdown(wait=False, cancel_futures=True)
             bad = pending[done]
-            yield (bad[0], {"dis": [{"clause": "Crash", "detail": "a worker process died (segmentation fault or abort) while cases were being "
-                                     "replayed; this case begins the chunk of %d cases that was awaited" % len(bad)}], "nontrivial": True})
+            yield (bad[0], PartialResult({"dis": [{"clause": "Crash", "detail": "a worker process died (segmentation fault or abort) while cases were being "
+                                                   "replayed; this case begins the chunk of %d cases that was awaited" % len(bad)}], "nontrivial": True}))
             pending = pending[done + 1:]
             if crashes >= 3:
                 return
